@@ -17,7 +17,7 @@ pub fn property() -> Property {
     Property {
         id: "C17",
         level: "exploration",
-        rule: "Real loopback listeners behind a name mapped with the resolver hook H2. Per address one of: ACCEPT (listener that answers a small HTTP response and counts connections/requests), REFUSE (socket bound but not listening), BLACK-HOLE (listen backlog 0 + parked connection: further SYNs are dropped; verified with a probe connect before each use). Address lists with 0..3 entries per family ([::1]:p_i and 127.0.0.1:p_i), both family orders in the resolver output, EVERY assignment of {accept, refuse, black-hole} (<= 3^6 per shape; 3 198 assignments in thorough, a stride in quick) x deadline class {none, already expired, shorter than the race, longer than the race}; plus single-address and IP-literal fast paths, and connect_timeout boundary values (Duration::MAX, 2^63 ms, one year) on lists that contain an acceptor. Oracle: reference racing order v6[0], v4[0], v6[1], v4[1], ... (resolver order kept inside a family): result Ok <=> some address accepts (and its attempt starts before the deadline); the connection on which the request arrives is at the FIRST acceptor of that order and no other acceptor sees a request; with k black-holes before it success takes at most k x 200 ms + 450 ms (connect_timeout is 10 s; a timing verdict must reproduce three times); all refuse => ConnectionRefused; no acceptor and a black-hole => Err after about connect_timeout (1 s in those cases). Non-trivial: >= 2 addresses; distinct = hash(assignment, order, deadline class).",
+        rule: "Real loopback listeners behind a name mapped with the resolver hook H2. Per address one of: ACCEPT (listener that answers a small HTTP response and counts connections/requests), REFUSE (socket bound but not listening), BLACK-HOLE (listen backlog 0 + parked connection: further SYNs are dropped; verified with a probe connect before each use). Address lists with 0..3 entries per family ([::1]:p_i and 127.0.0.1:p_i), both family orders in the resolver output, EVERY assignment of {accept, refuse, black-hole} (<= 3^6 per shape; 3 198 assignments in thorough, a stride in quick) x deadline class {none, already expired, shorter than the race, longer than the race}; plus single-address and IP-literal fast paths, a 'second use' scenario (the address that served the first connection to a name stops answering; the next connection is raced afresh), and connect_timeout boundary values (Duration::MAX, 2^63 ms, one year) on lists that contain an acceptor. Oracle: reference racing order v6[0], v4[0], v6[1], v4[1], ... (resolver order kept inside a family): result Ok <=> some address accepts (and its attempt starts before the deadline); the connection on which the request arrives is at the FIRST acceptor of that order and no other acceptor sees a request; with k black-holes before it success takes at most k x 200 ms + 450 ms (connect_timeout is 10 s; a timing verdict must reproduce three times); all refuse => ConnectionRefused; no acceptor and a black-hole => Err after about connect_timeout (1 s in those cases). Non-trivial: >= 2 addresses; distinct = hash(assignment, order, deadline class).",
         assumptions: &["Linux loopback semantics (accept-queue overflow drops SYNs); IPv6 loopback available (otherwise the v6 cases are inconclusive)", "timing classes are 200 ms apart; a case on an overloaded machine is retried"],
         min_nontrivial: |t| t.pick(40, 2_000),
         gens,
@@ -78,6 +78,7 @@ fn gens(tier: Tier) -> Vec<Gen> {
         Gen { name: "matrix", count: tier.pick(96, total), exhaustive: tier == Tier::Thorough, run: run_matrix },
         Gen { name: "fast-paths", count: 12, exhaustive: true, run: run_fast_paths },
         Gen { name: "boundary-connect-timeout", count: (4 * 3 * 2) as u64, exhaustive: true, run: run_boundary_timeout },
+        Gen { name: "second-use", count: 4, exhaustive: true, run: run_second_use },
         Gen { name: "unresponsive", count: 24, exhaustive: true, run: run_unresponsive },
     ]
 }
@@ -602,4 +603,129 @@ fn run_boundary_timeout(ctx: &mut Ctx, _rng: &mut Rng, index: u64) {
         break;
     }
     ctx.nontrivial(format!("bct{index}").as_bytes());
+}
+
+/// a listener that accepts and answers exactly ONE connection and can then be turned into a
+/// black-hole (nobody accepts any more; parked connections fill its queue)
+struct OnceThenHole {
+    addr: SocketAddr,
+    listener: TcpListener,
+    requests: Arc<AtomicUsize>,
+    handle: Option<std::thread::JoinHandle<()>>,
+    parked: Vec<TcpStream>,
+}
+
+impl OnceThenHole {
+    fn spawn(v6: bool) -> Option<OnceThenHole> {
+        let l = TcpListener::bind(if v6 { "[::1]:0" } else { "127.0.0.1:0" }).ok()?;
+        let addr = l.local_addr().ok()?;
+        unsafe {
+            libc::listen(l.as_raw_fd(), 0);
+        }
+        let requests = Arc::new(AtomicUsize::new(0));
+        let r2 = requests.clone();
+        let l2 = l.try_clone().ok()?;
+        let handle = std::thread::spawn(move || {
+            let _ = l2.set_nonblocking(true);
+            let t0 = Instant::now();
+            while t0.elapsed() < Duration::from_secs(20) {
+                match l2.accept() {
+                    Ok((mut s, _)) => {
+                        let _ = s.set_nonblocking(false);
+                        let _ = s.set_read_timeout(Some(Duration::from_secs(3)));
+                        let mut buf = Vec::new();
+                        let mut b = [0u8; 512];
+                        while !buf.windows(4).any(|w| w == b"\r\n\r\n") {
+                            match s.read(&mut b) {
+                                Ok(0) | Err(_) => break,
+                                Ok(n) => buf.extend_from_slice(&b[..n]),
+                            }
+                        }
+                        if buf.windows(4).any(|w| w == b"\r\n\r\n") {
+                            r2.fetch_add(1, Ordering::SeqCst);
+                            let _ = s.write_all(b"HTTP/1.1 200 OK\r\nContent-Length: 2\r\n\r\nok");
+                        }
+                        return; // never accept again
+                    }
+                    Err(_) => std::thread::sleep(Duration::from_millis(2)),
+                }
+            }
+        });
+        Some(OnceThenHole { addr, listener: l, requests, handle: Some(handle), parked: Vec::new() })
+    }
+    /// true when connection attempts now hang
+    fn make_unresponsive(&mut self) -> bool {
+        if let Some(h) = self.handle.take() {
+            let _ = h.join();
+        }
+        let _ = &self.listener;
+        for _ in 0..4 {
+            match TcpStream::connect_timeout(&self.addr, Duration::from_millis(120)) {
+                Ok(s) => self.parked.push(s),
+                Err(e) if e.kind() == std::io::ErrorKind::TimedOut || e.kind() == std::io::ErrorKind::WouldBlock => return true,
+                Err(_) => return false,
+            }
+        }
+        false
+    }
+}
+
+/// the SECOND connection to a name is raced like the first: when the address that served the
+/// first one has stopped answering, the other family still wins after about one race interval
+fn run_second_use(ctx: &mut Ctx, _rng: &mut Rng, index: u64) {
+    let v4_first_in_resolver = index % 2 == 1;
+    let with_deadline = (index / 2) % 2 == 1;
+    for attempt in 0..3 {
+        if oversleep() > Duration::from_millis(150) {
+            std::thread::sleep(Duration::from_millis(200));
+            if attempt == 2 {
+                ctx.inconclusive("machine too loaded");
+            }
+            continue;
+        }
+        let mut first = match OnceThenHole::spawn(true) {
+            Some(p) => p,
+            None => return ctx.inconclusive("could not set up an IPv6 loopback peer"),
+        };
+        let second = match AcceptListener::spawn(false) {
+            Some(p) => p,
+            None => return ctx.inconclusive("could not set up an IPv4 loopback peer"),
+        };
+        let host = format!("again{}.test", HOST_SEQ.fetch_add(1, Ordering::Relaxed));
+        let addrs = if v4_first_in_resolver { vec![second.addr, first.addr] } else { vec![first.addr, second.addr] };
+        set_resolver_override(&host, Some(addrs));
+        let mk = || {
+            let rb = attohttpc::get(format!("http://{host}:9/c17")).connect_timeout(Duration::from_secs(10)).read_timeout(Duration::from_secs(5));
+            if with_deadline { rb.timeout(Duration::from_secs(8)) } else { rb }
+        };
+        let r1 = mk().send().map(|r| r.status().as_u16()).map_err(|e| format!("{e:?}"));
+        let first_served_by_v6 = first.requests.load(Ordering::SeqCst) == 1;
+        if r1 != Ok(200) || !first_served_by_v6 {
+            set_resolver_override(&host, None);
+            ctx.violation("second-use:first-connection", format!("first connection to [v6 accept, v4 accept]: {r1:?}, served by the IPv6 address: {first_served_by_v6}"));
+            return;
+        }
+        if !first.make_unresponsive() {
+            set_resolver_override(&host, None);
+            return ctx.inconclusive("could not make the first listener unresponsive");
+        }
+        let t0 = Instant::now();
+        let r2 = mk().send().map(|r| r.status().as_u16()).map_err(|e| format!("{e:?}"));
+        let elapsed = t0.elapsed();
+        set_resolver_override(&host, None);
+        let descr = format!("second connection to the same name after the IPv6 address that served the first one stopped answering (resolver order: {} first, overall timeout {}): {r2:?} after {elapsed:?}, IPv4 listener saw {} request(s)", if v4_first_in_resolver { "IPv4" } else { "IPv6" }, if with_deadline { "8 s" } else { "none" }, second.requests.load(Ordering::SeqCst));
+        ctx.max("second_use_elapsed_ms_max", elapsed.as_millis() as u64);
+        if r2 != Ok(200) || second.requests.load(Ordering::SeqCst) != 1 {
+            ctx.violation("second-use:connect-failed-although-an-address-accepts", descr);
+        } else if elapsed > Duration::from_millis(200 + 450) {
+            if attempt < 2 {
+                ctx.count("timing_verdicts_rechecked", 1);
+                continue;
+            }
+            ctx.violation("timing:second-use:unresponsive-address-delays-by-more-than-a-race-interval", descr);
+        }
+        ctx.count("second_use_cases", 1);
+        break;
+    }
+    ctx.nontrivial(format!("su{index}").as_bytes());
 }
